@@ -5,27 +5,48 @@ Nothing here calls pytenet (as_vector / as_matrix / is_qsparse are themselves un
 import numpy as np
 
 
+def _rebalance(cur, e):
+    """Exact power-of-two rescaling of a partial product whose magnitude drifts towards under- / overflow."""
+    m = float(np.abs(cur).max()) if cur.size else 0.0
+    if m == 0 or not np.isfinite(m) or 2.0 ** -200 <= m <= 2.0 ** 200:
+        return cur, e
+    k = int(np.frexp(m)[1])
+    return cur * 2.0 ** -k, e + k
+
+
+def _apply_exponent(cur, e):
+    while e != 0:
+        st = max(-900, min(900, e))
+        cur = cur * 2.0 ** st
+        e -= st
+    return cur
+
+
 def mps_to_vector(Alist):
     cur = np.asarray(Alist[0])
     assert cur.ndim == 3 and cur.shape[1] == 1
     cur = cur[:, 0, :].astype(complex)
+    e = 0
     for A in Alist[1:]:
         A = np.asarray(A)
+        cur, e = _rebalance(cur, e)
         cur = np.einsum('nb,pbc->npc', cur, A).reshape(cur.shape[0] * A.shape[0], A.shape[2])
     assert cur.shape[1] == 1
-    return cur[:, 0].copy()
+    return _apply_exponent(cur[:, 0].copy(), e)
 
 
 def mpo_to_matrix(Alist):
     cur = np.asarray(Alist[0])
     assert cur.ndim == 4 and cur.shape[2] == 1
     cur = cur[:, :, 0, :].astype(complex)
+    e = 0
     for A in Alist[1:]:
         A = np.asarray(A)
         n = cur.shape[0]
+        cur, e = _rebalance(cur, e)
         cur = np.einsum('xyb,pqbc->xpyqc', cur, A).reshape(n * A.shape[0], cur.shape[1] * A.shape[1], A.shape[3])
     assert cur.shape[2] == 1
-    return cur[:, :, 0].copy()
+    return _apply_exponent(cur[:, :, 0].copy(), e)
 
 
 def frob_scale(Alist):
